@@ -12,7 +12,8 @@ RULE = ("Generated test programs whose stages attach details under arbitrary nam
         "'Failed expectation', names equal to fixture / mismatch detail names, non-ASCII names; never 'reason') with "
         "empty / multi-chunk / non-UTF-8 / lazily evaluated payloads, use fixtures carrying details (also with "
         "failing setUp, nested), produce assertThat/expectThat mismatches with details, raise 0..k exceptions incl. "
-        "MultipleExceptions and expectFailure, and register 0..2 addOnException handlers; the extended recorder "
+        "MultipleExceptions and expectFailure (empty skip reasons, falsy exceptions, loops attaching one name 11-14 "
+        "times so that suffixes reach two digits), and register 0..2 addOnException handlers; the extended recorder "
         "snapshots every content's bytes inside the outcome call. Oracle: name-agnostic containment - every expected "
         "item (identified by a marker in its bytes) maps to a distinct entry of the delivered details dict; user "
         "details sit under exactly their own name with the bytes their source yields at reporting time; handler "
